@@ -184,7 +184,100 @@ func stateFacts() {
 	}
 }
 
+// convFacts prints every conversion to a narrower integer type in decode.go with the syntactic
+// context it occurs in: `conv\t<func>\t<type>\t<context>`, context = arg (argument of a call),
+// assign (right-hand side of := or =), cond (inside an if/switch condition), other.  A size that is
+// narrowed BEFORE it is range-checked shows up as a new `assign`/`cond` entry.
+func convFacts() {
+	file := "src/storage/rlp/decode.go"
+	fset := token.NewFileSet()
+	f, err := parser.ParseFile(fset, file, nil, 0)
+	if err != nil {
+		fmt.Fprintln(os.Stderr, err)
+		os.Exit(1)
+	}
+	narrow := map[string]bool{"byte": true, "uint8": true, "uint16": true, "uint32": true, "int": true, "int8": true, "int16": true, "int32": true}
+	for _, d := range f.Decls {
+		fd, ok := d.(*ast.FuncDecl)
+		if !ok || fd.Body == nil {
+			continue
+		}
+		name := fd.Name.Name
+		if fd.Recv != nil && len(fd.Recv.List) == 1 {
+			t := fd.Recv.List[0].Type
+			if st, ok := t.(*ast.StarExpr); ok {
+				t = st.X
+			}
+			if id, ok := t.(*ast.Ident); ok {
+				name = id.Name + "." + name
+			}
+		}
+		var walk func(n ast.Node, ctx string)
+		walk = func(n ast.Node, ctx string) {
+			if n == nil {
+				return
+			}
+			switch x := n.(type) {
+			case *ast.CallExpr:
+				if id, ok := x.Fun.(*ast.Ident); ok && narrow[id.Name] && len(x.Args) == 1 {
+					if _, lit := x.Args[0].(*ast.BasicLit); !lit {
+						fmt.Printf("conv\t%s\t%s\t%s\n", name, id.Name, ctx)
+					}
+					walk(x.Args[0], ctx)
+					return
+				}
+				walk(x.Fun, ctx)
+				for _, a := range x.Args {
+					c := "arg"
+					if ctx == "cond" {
+						c = "cond"
+					}
+					walk(a, c)
+				}
+				return
+			case *ast.AssignStmt:
+				for _, l := range x.Lhs {
+					walk(l, "other")
+				}
+				for _, r := range x.Rhs {
+					walk(r, "assign")
+				}
+				return
+			case *ast.IfStmt:
+				walk(x.Init, "other")
+				walk(x.Cond, "cond")
+				walk(x.Body, "other")
+				walk(x.Else, "other")
+				return
+			case *ast.SwitchStmt:
+				walk(x.Init, "other")
+				walk(x.Tag, "cond")
+				walk(x.Body, "other")
+				return
+			case *ast.CaseClause:
+				for _, e := range x.List {
+					walk(e, "cond")
+				}
+				for _, st := range x.Body {
+					walk(st, "other")
+				}
+				return
+			}
+			// generic descent keeping the context
+			ast.Inspect(n, func(c ast.Node) bool {
+				if c == n || c == nil {
+					return true
+				}
+				walk(c, ctx)
+				return false
+			})
+		}
+		walk(fd.Body, "other")
+	}
+}
+
 func main() {
+	convFacts()
 	stateFacts()
 	poolFacts()
 	want := map[string]map[string]bool{
